@@ -83,9 +83,10 @@ Record temp := mkTemp {
   t_weights : option (list (nat * t));
   t_stat : option (list (nat * cell));
   t_cash : option t;
-  t_notional : option t
+  t_notional : option t;
+  t_wseries : bool       (* temp['weights'] is a pandas Series (numpy scalars) rather than a dict of Python floats *)
 }.
-Definition empty_temp : temp := mkTemp None None None None None.
+Definition empty_temp : temp := mkTemp None None None None None false.
 
 Record astate := mkAState {
   a_is_strategy : bool;             (* Strategy (has a stack) vs bare StrategyBase *)
@@ -94,8 +95,20 @@ Record astate := mkAState {
   a_closed : list nat;              (* perm['closed'] *)
   a_rolled : list nat;              (* perm['rolled'] *)
   a_has_closed : bool;              (* "closed" in perm *)
-  a_has_rolled : bool
+  a_has_rolled : bool;
+  a_trace : list (option nat * bool * temp)   (* ghost: (now, stack result, temp) at the end of every Strategy.run *)
 }.
+Definition set_a_temp (tm : temp) (a : astate) : astate :=
+  mkAState (a_is_strategy a) (a_stack a) tm (a_closed a) (a_rolled a) (a_has_closed a) (a_has_rolled a) (a_trace a).
+Definition set_a_stack (l : list algo) (a : astate) : astate :=
+  mkAState (a_is_strategy a) l (a_temp a) (a_closed a) (a_rolled a) (a_has_closed a) (a_has_rolled a) (a_trace a).
+Definition add_a_closed (l : list nat) (a : astate) : astate :=
+  mkAState (a_is_strategy a) (a_stack a) (a_temp a) (a_closed a ++ l) (a_rolled a) true (a_has_rolled a) (a_trace a).
+Definition add_a_rolled (l : list nat) (a : astate) : astate :=
+  mkAState (a_is_strategy a) (a_stack a) (a_temp a) (a_closed a) (a_rolled a ++ l) (a_has_closed a) true (a_trace a).
+Definition add_a_trace (x : option nat * bool * temp) (a : astate) : astate :=
+  mkAState (a_is_strategy a) (a_stack a) (a_temp a) (a_closed a) (a_rolled a) (a_has_closed a) (a_has_rolled a)
+           (a_trace a ++ [x]).
 
 Local Notation node := (node N astate).
 Local Notation tree := (tree N astate).
@@ -125,17 +138,23 @@ Definition upd_astate (p : list nat) (f : astate -> astate) (tr : tree) : result
                         end) tr.
 
 Definition set_temp (p : list nat) (tm : temp) (tr : tree) : result tree :=
-  upd_astate p (fun a => mkAState (a_is_strategy a) (a_stack a) tm (a_closed a) (a_rolled a)
-                                  (a_has_closed a) (a_has_rolled a)) tr.
+  upd_astate p (set_a_temp tm) tr.
 
 Definition with_selected (s : list nat) (tm : temp) : temp :=
-  mkTemp (Some s) (t_weights tm) (t_stat tm) (t_cash tm) (t_notional tm).
+  mkTemp (Some s) (t_weights tm) (t_stat tm) (t_cash tm) (t_notional tm) (t_wseries tm).
+(* a fresh dict of Python floats *)
 Definition with_weights (w : list (nat * t)) (tm : temp) : temp :=
-  mkTemp (t_selected tm) (Some w) (t_stat tm) (t_cash tm) (t_notional tm).
+  mkTemp (t_selected tm) (Some w) (t_stat tm) (t_cash tm) (t_notional tm) false.
+(* a pandas Series *)
+Definition with_weights_series (w : list (nat * t)) (tm : temp) : temp :=
+  mkTemp (t_selected tm) (Some w) (t_stat tm) (t_cash tm) (t_notional tm) true.
+(* in-place modification of the existing container *)
+Definition with_weights_inplace (w : list (nat * t)) (tm : temp) : temp :=
+  mkTemp (t_selected tm) (Some w) (t_stat tm) (t_cash tm) (t_notional tm) (t_wseries tm).
 Definition with_stat (s : list (nat * cell)) (tm : temp) : temp :=
-  mkTemp (t_selected tm) (t_weights tm) (Some s) (t_cash tm) (t_notional tm).
+  mkTemp (t_selected tm) (t_weights tm) (Some s) (t_cash tm) (t_notional tm) (t_wseries tm).
 Definition with_notional (v : t) (tm : temp) : temp :=
-  mkTemp (t_selected tm) (t_weights tm) (t_stat tm) (t_cash tm) (Some v).
+  mkTemp (t_selected tm) (t_weights tm) (t_stat tm) (t_cash tm) (Some v) (t_wseries tm).
 
 Definition ts_of (e : env) (i : nat) : Z := nth i (e_dates e) 0%Z.
 
@@ -391,6 +410,8 @@ Fixpoint run_algo (a : algo) (tr : tree) {struct a} : result (algo * bool * tree
             match ow with
             | None => Err EKey
             | Some cw =>
+              (* Python floats: a zero target raises ZeroDivisionError *)
+              if (w =? 0) && negb (t_wseries (a_temp st)) then Err EZeroDiv else
               if tol <? nabs N ((cw - w) / w) then Ok (true, tr) else go ks' tr
             end
           end
@@ -556,7 +577,7 @@ Fixpoint run_algo (a : algo) (tr : tree) {struct a} : result (algo * bool * tree
       | None => same false tr
       | Some r =>
         let w := flat_map (fun kc => match nth r (snd kc) None with Some v => [(fst kc, v)] | None => [] end) cols in
-        tr <- set_temp p (with_weights w (a_temp st)) tr ;; same true tr
+        tr <- set_temp p (with_weights_series w (a_temp st)) tr ;; same true tr
       end
     | _ => Err EKey
     end
@@ -584,7 +605,7 @@ Fixpoint run_algo (a : algo) (tr : tree) {struct a} : result (algo * bool * tree
         end in
       '(tw, tr) <- go keys tw tr ;;
       '(_, _, st) <- get_astate p tr ;;
-      tr <- set_temp p (with_weights tw (a_temp st)) tr ;; same true tr
+      tr <- set_temp p (with_weights_inplace tw (a_temp st)) tr ;; same true tr
     end
   | ALimitWeights lim =>
     '(_, _, st) <- get_astate p tr ;;
@@ -598,7 +619,7 @@ Fixpoint run_algo (a : algo) (tr : tree) {struct a} : result (algo * bool * tree
             (* ffn.limit_weights: "if np.round(weights.sum(), 1) != 1.0: raise ValueError" *)
         if negb (nrint N (sum_w tw * nofZ N 10) =? nofZ N 10) then Err EValue else
         w <- limit_weights (S (length tw)) lim tw ;;
-        tr <- set_temp p (with_weights w (a_temp st)) tr ;; same true tr
+        tr <- set_temp p (with_weights_series w (a_temp st)) tr ;; same true tr
     end
   | ACapitalFlow amt =>
     tr <- tree_at p (fun _ n => match n with
@@ -624,7 +645,7 @@ Fixpoint run_algo (a : algo) (tr : tree) {struct a} : result (algo * bool * tree
               tr <- op_close paper_step p k true tr ;;
               '(_, _, st) <- get_astate p tr ;;
               tr <- (match t_weights (a_temp st) with
-                     | Some w => set_temp p (with_weights (del_assoc k w) (a_temp st)) tr
+                     | Some w => set_temp p (with_weights_inplace (del_assoc k w) (a_temp st)) tr
                      | None => Ok tr
                      end) ;;
               go ks' tr
@@ -756,8 +777,7 @@ Fixpoint run_algo (a : algo) (tr : tree) {struct a} : result (algo * bool * tree
         | k :: ks' => tr <- op_close paper_step p k false tr ;; go ks' tr
         end in
       tr <- go due tr ;;
-      tr <- upd_astate p (fun a => mkAState (a_is_strategy a) (a_stack a) (a_temp a) (a_closed a ++ due) (a_rolled a)
-                                            true (a_has_rolled a)) tr ;;
+      tr <- upd_astate p (add_a_closed due) tr ;;
       '(g, _) <- get_strat p tr ;;
       tr <- root_update paper_step (g_now g) tr ;;
       same true tr
@@ -805,8 +825,7 @@ Fixpoint run_algo (a : algo) (tr : tree) {struct a} : result (algo * bool * tree
           doit l' tr
         end in
       tr <- doit trans tr ;;
-      tr <- upd_astate p (fun a => mkAState (a_is_strategy a) (a_stack a) (a_temp a) (a_closed a) (a_rolled a ++ rolled)
-                                            (a_has_closed a) true) tr ;;
+      tr <- upd_astate p (add_a_rolled rolled) tr ;;
       '(g, _) <- get_strat p tr ;;
       tr <- root_update paper_step (g_now g) tr ;;
       same true tr
@@ -843,8 +862,7 @@ End RunAlgo.
 
 (* Strategy.run on the strategy at path p: clear temp, run the stack, run the children *)
 Definition set_stack (p : list nat) (l : list algo) (tr : tree) : result tree :=
-  upd_astate p (fun a => mkAState (a_is_strategy a) l (a_temp a) (a_closed a) (a_rolled a)
-                                  (a_has_closed a) (a_has_rolled a)) tr.
+  upd_astate p (set_a_stack l) tr.
 
 Fixpoint strat_run (fuel : nat) (e : env) (p : list nat) (tr : tree) {struct fuel} : result tree :=
   match fuel with
@@ -853,8 +871,10 @@ Fixpoint strat_run (fuel : nat) (e : env) (p : list nat) (tr : tree) {struct fue
     '(_, _, a) <- get_astate p tr ;;
     if negb (a_is_strategy a) then Ok tr else
     tr <- set_temp p empty_temp tr ;;
-    '(st', _, tr) <- run_algo e p (AStack (a_stack a)) tr ;;
+    '(st', b, tr) <- run_algo e p (AStack (a_stack a)) tr ;;
     tr <- (match st' with AStack l => set_stack p l tr | _ => Err EOther end) ;;
+    '(g1, _, a1) <- get_astate p tr ;;
+    tr <- upd_astate p (add_a_trace (g_now g1, b, a_temp a1)) tr ;;
     '(_, kids) <- get_strat p tr ;;
     let fix go (ks : list node) (tr : tree) : result tree :=
       match ks with
